@@ -91,7 +91,7 @@ def oracle_T(toks):
     #     reader through the ReadStream& base: same bytes, same size prediction, same values
     # re: the same stream decoded into pre-filled destinations (stale content of equal / larger / smaller size)
     # and once more into the same objects: every destination equals the written value exactly
-    return "enc=%s calc=%d dec=%s end=%s cur=%d trunc=ok:%d fix=%s re=ok st=ok" % (hx(enc), L, dec, ends, L, L, fix)
+    return "enc=%s calc=%d dec=%s end=%s cur=%d trunc=ok:%d fix=%s re=ok st=ok cp=ok" % (hx(enc), L, dec, ends, L, L, fix)
 
 
 def oracle_R(toks):
@@ -194,6 +194,11 @@ def oracle_H(toks):
             buf += b"\0" * int(f[1]); o = "ok|%d" % len(buf)
         elif f[0] == "new":
             curs.append(0); o = "reader=%d" % (len(curs) - 1)
+        elif f[0] == "cp":
+            k = int(f[1])
+            if k >= len(curs):
+                outs.append("bad"); continue
+            curs.append(curs[k]); o = "reader=%d|%d" % (len(curs) - 1, curs[-1])
         else:
             k = int(f[1])
             if k >= len(curs):
@@ -412,7 +417,7 @@ def gen_L_random(r):
 
 def gen_H_exhaustive(maxlen):
     """all histories over a small alphabet: two possible readers, writes before and after their construction"""
-    alpha = ["w:41", "w:4243", "new", "rd:0:1:1", "rd:0:2:1", "end:0", "vw:0:1", "rd:1:1:1", "end:1"]
+    alpha = ["w:41", "w:4243", "new", "rd:0:1:1", "rd:0:2:1", "end:0", "vw:0:1", "rd:1:1:1", "end:1", "cp:0"]
     for n in range(2, maxlen + 1):
         for t in itertools.product(alpha, repeat=n):
             if "new" in t and t.index("new") < n - 1 and any(x[0] == "w" for x in t):
@@ -430,7 +435,10 @@ def gen_H_random(r):
             ops.append("wn:%d" % n if r.random() < 0.15 else "w:" + hx(bytes((size + i) & 0xff for i in range(n))))
             size += n
         elif c < 0.45 and len(curs) < 4:
-            ops.append("new"); curs.append(0)
+            if curs and r.random() < 0.4:
+                k = r.randrange(len(curs)); ops.append("cp:%d" % k); curs.append(curs[k])
+            else:
+                ops.append("new"); curs.append(0)
         elif curs:
             k = r.randrange(len(curs))
             rem = size - curs[k]
@@ -499,6 +507,124 @@ def run_impl_resumable(ctx, exe, cases, timeout, max_restarts=6):
     return lines, events
 
 
+
+# ------------------------------------------------------------------------------ inventory closure
+# Every declaration of namespace rkcommon::networking (props/C15/factgen.py inventory(): clang JSON AST of DataStreaming.h/.cpp
+# plus an instantiation TU that makes clang declare the implicit special members) -> the theorems / source-derived obligations
+# ("by") and the harness operations ("ops", keys of the execution counters below) that cover it, or an out-of-scope reason.
+# The check fails closed on: a declaration missing here, an entry whose declaration vanished or changed signature, a covered
+# entry none of whose operations ran.
+def _c(by, ops):
+    return {"by": by, "ops": ops}
+
+
+WRITE_T = ["decode_encode", "seq_roundtrip", "writer_emits_encoding", "src_overload_selection"]
+COVER = {
+    # ---- abstract bases
+    "WriteStream::write : void (const void *, size_t)": _c(["writer_emits_encoding", "size_calculator", "fixed_accept_iff_fits"], ["T"]),
+    "WriteStream::flush : void ()": _c(["(no-op: no observable effect; cp= field of every T case calls it on each writer class and through WriteStream&)"], ["T"]),
+    "WriteStream::~WriteStream : void () noexcept (defaulted)": _c(["view_outlives_writer (writer destruction)"], ["T", "L:kill"]),
+    "WriteStream::WriteStream : void () noexcept (implicit)": _c(["(base subobject of every writer constructed)"], ["T"]),
+    "WriteStream::WriteStream : void (const WriteStream &) noexcept (implicit)": _c(["(base subobject of the writer copies, cp= field)"], ["T"]),
+    "WriteStream::operator= : WriteStream &(const WriteStream &) noexcept (implicit)": _c(["(base subobject of the writer assignments, cp= field)"], ["T"]),
+    "ReadStream::read : void (void *, size_t)": _c(["reads_in_bounds", "read_throws_iff", "src_read_is_model"], ["T", "R:rd"]),
+    "ReadStream::end : bool ()": _c(["end_iff_consumed", "end_iff_current_length", "src_end_is_model"], ["T", "R:end", "H:end"]),
+    "ReadStream::~ReadStream : void () noexcept (defaulted)": _c(["(readers destroyed at the end of every case)"], ["T", "R"]),
+    "ReadStream::ReadStream : void () noexcept (implicit)": _c(["(base subobject of every reader constructed)"], ["T", "R"]),
+    "ReadStream::ReadStream : void (const ReadStream &) noexcept (implicit)": _c(["reader_copy_and_independence"], ["H:cp", "T"]),
+    "ReadStream::operator= : ReadStream &(const ReadStream &) (implicit)": {"out": "never callable from the property's classes: BufferReader has a const member, its copy assignment is deleted"},
+    # ---- BufferWriter
+    "BufferWriter::BufferWriter : void ()": _c(["writer_emits_encoding"], ["T", "W", "H:w"]),
+    "BufferWriter::write : void (const void *, size_t)": _c(["writer_emits_encoding", "hist_step_inv"], ["T", "W", "H:w", "H:wn"]),
+    "BufferWriter::buffer : field std::shared_ptr<utility::OwnedArray<uint8_t>>": _c(["reader_sees_later_writes", "hist_step_inv"], ["T", "H:new"]),
+    "BufferWriter::BufferWriter : void (const BufferWriter &) noexcept (implicit)": _c(["(cp= field: the copy shares the buffer object, a write through the copy is seen through the original)"], ["T"]),
+    "BufferWriter::BufferWriter : void (BufferWriter &&) (implicit)": _c(["(cp= field)"], ["T"]),
+    "BufferWriter::operator= : BufferWriter &(const BufferWriter &) noexcept (implicit)": _c(["(cp= field)"], ["T"]),
+    "BufferWriter::operator= : BufferWriter &(BufferWriter &&) (implicit)": _c(["(cp= field)"], ["T"]),
+    "BufferWriter::~BufferWriter : void () noexcept (implicit)": _c(["(every case)"], ["T", "W"]),
+    # ---- BufferReader
+    "BufferReader::BufferReader : void (const std::shared_ptr<utility::AbstractArray<uint8_t>> &)": _c(["seq_roundtrip", "reader_sees_later_writes", "src_reader_state_is_buffer_and_cursor"], ["T", "R", "H:new"]),
+    "BufferReader::read : void (void *, size_t)": _c(["reads_in_bounds", "read_throws_iff", "hist_read_in_bounds", "src_read_is_model", "src_read_in_bounds"], ["T", "R:rd", "H:rd"]),
+    "BufferReader::getView<> : std::shared_ptr<utility::ArrayView<T>> (size_t)": _c(["view_in_bounds", "view_throws_iff", "src_view_is_model", "src_view_throws_iff"], ["R:vw", "H:vw", "T:arr"]),
+    "BufferReader::end : bool ()": _c(["end_iff_consumed", "end_iff_current_length", "src_end_is_model"], ["T", "R:end", "H:end"]),
+    "BufferReader::cursor : field size_t": _c(["seq_roundtrip (cursor = bytes consumed)", "src_reader_state_is_buffer_and_cursor"], ["T", "R", "H:rd"]),
+    "BufferReader::buffer : field const std::shared_ptr<utility::AbstractArray<uint8_t>>": _c(["src_reader_state_is_buffer_and_cursor", "reader_sees_later_writes"], ["H:new", "T"]),
+    "BufferReader::BufferReader : void (const BufferReader &) noexcept (implicit)": _c(["reader_copy_and_independence"], ["H:cp", "T"]),
+    "BufferReader::BufferReader : void (BufferReader &&) (implicit)": _c(["reader_copy_and_independence (a move of a reader copies cursor and shares the buffer: const member)"], ["T"]),
+    "BufferReader::operator= : BufferReader &(const BufferReader &) (implicit)": {"out": "implicitly deleted (const data member `buffer`): cannot be called"},
+    "BufferReader::operator= : BufferReader &(BufferReader &&) (implicit)": {"out": "implicitly deleted (const data member `buffer`): cannot be called"},
+    "BufferReader::~BufferReader : void () noexcept (implicit)": _c(["(every case)"], ["T", "R"]),
+    # ---- WriteSizeCalculator
+    "WriteSizeCalculator::write : void (const void *, size_t)": _c(["size_calculator", "write_read_roundtrip"], ["T", "W"]),
+    "WriteSizeCalculator::writtenSize : field size_t": _c(["size_calculator"], ["T", "W"]),
+    "WriteSizeCalculator::WriteSizeCalculator : void () (implicit)": _c(["size_calculator (starts at 0)"], ["T", "W"]),
+    "WriteSizeCalculator::WriteSizeCalculator : void (const WriteSizeCalculator &) noexcept (implicit)": _c(["(cp= field: copies count independently)"], ["T"]),
+    "WriteSizeCalculator::WriteSizeCalculator : void (WriteSizeCalculator &&) (implicit)": _c(["(cp= field)"], ["T"]),
+    "WriteSizeCalculator::operator= : WriteSizeCalculator &(const WriteSizeCalculator &) noexcept (implicit)": _c(["(cp= field)"], ["T"]),
+    "WriteSizeCalculator::operator= : WriteSizeCalculator &(WriteSizeCalculator &&) (implicit)": _c(["(cp= field)"], ["T"]),
+    "WriteSizeCalculator::~WriteSizeCalculator : void () noexcept (implicit)": _c(["(every case)"], ["T"]),
+    # ---- FixedBufferWriter
+    "FixedBufferWriter::FixedBufferWriter : void (size_t)": _c(["fixed_view_exact", "view_outlives_writer"], ["F", "L", "T"]),
+    "FixedBufferWriter::FixedBufferWriter : void () noexcept (defaulted)": _c(["(construct / assign-to / destroy only, cp= field; every other member dereferences the null buffer - reported as a possible finding, "
+                                                                              "theorems assume a writer constructed with a size)"], ["T"]),
+    "FixedBufferWriter::write : void (const void *, size_t)": _c(["fixed_accept_iff_fits", "fixed_step_log", "src_fwrite_is_model", "src_fwrite_accept_iff_fits"], ["F:w", "F:wn", "T"]),
+    "FixedBufferWriter::reserve : void *(size_t)": _c(["fixed_accept_iff_fits", "fixed_step_log", "src_freserve_is_model"], ["F:rs", "F:rf"]),
+    "FixedBufferWriter::getWrittenView : std::shared_ptr<utility::FixedArray<uint8_t>::View> ()": _c(["fixed_view_exact", "view_outlives_writer", "view_step_stable", "src_written_view_is_model", "src_view_owns_share"], ["F", "L:view", "T"]),
+    "FixedBufferWriter::available : size_t () const": _c(["fixed_view_exact", "src_available_is_model"], ["F", "L", "T"]),
+    "FixedBufferWriter::capacity : size_t () const": _c(["fixed_view_exact", "src_capacity_is_model"], ["F", "L", "T"]),
+    "FixedBufferWriter::cursor : field size_t": _c(["fixed_view_exact (cursor = len log)"], ["F", "L"]),
+    "FixedBufferWriter::buffer : field std::shared_ptr<utility::FixedArray<uint8_t>>": _c(["view_outlives_writer (re-seating)", "src_view_owns_share"], ["L:reseat", "F"]),
+    "FixedBufferWriter::FixedBufferWriter : void (const FixedBufferWriter &) noexcept (implicit)": _c(["(cp= field: the copy shares the storage and has its own cursor)"], ["T"]),
+    "FixedBufferWriter::FixedBufferWriter : void (FixedBufferWriter &&) (implicit)": _c(["(cp= field)"], ["T"]),
+    "FixedBufferWriter::operator= : FixedBufferWriter &(const FixedBufferWriter &) noexcept (implicit)": _c(["(cp= field)"], ["T"]),
+    "FixedBufferWriter::operator= : FixedBufferWriter &(FixedBufferWriter &&) (implicit)": _c(["(cp= field)"], ["T"]),
+    "FixedBufferWriter::~FixedBufferWriter : void () noexcept (implicit)": _c(["view_outlives_writer"], ["L:kill", "L", "F"]),
+    # ---- the stream operators (closed list: src_overload_set_closed) and the trait they are guarded with
+    "operator<<<> : typename std::enable_if<!detail::is_abstract_array<T>::value, WriteStream &>::type (WriteStream &, const T &)": _c(WRITE_T + ["src_array_overload"], ["T:raw"]),
+    "operator>><> : ReadStream &(ReadStream &, T &)": _c(["decode_encode", "destination_independent", "src_overload_selection"], ["T:raw"]),
+    "operator<<<> : WriteStream &(WriteStream &, const std::vector<T> &)": _c(WRITE_T + ["src_prefix_is_size_t"], ["T:vec"]),
+    "operator>><> : ReadStream &(ReadStream &, std::vector<T> &)": _c(["decode_encode", "destination_independent", "src_vector_read_is_model", "src_prefix_is_size_t"], ["T:vec"]),
+    "operator<<<> : WriteStream &(WriteStream &, const utility::AbstractArray<T> &)": _c(WRITE_T + ["src_array_overload", "src_prefix_is_size_t"], ["T:arr"]),
+    "operator<< : WriteStream &(WriteStream &, const std::string &)": _c(WRITE_T + ["src_prefix_is_size_t"], ["T:str"]),
+    "operator<< : WriteStream &(WriteStream &, const char *)": _c(WRITE_T + ["src_prefix_is_size_t"], ["T:cs"]),
+    "operator>> : ReadStream &(ReadStream &, std::string &)": _c(["decode_encode", "destination_independent", "src_string_read_is_model", "src_prefix_is_size_t"], ["T:str", "T:cs"]),
+    "detail::is_abstract_array<> : class template": _c(["src_array_overload", "src_overload_set_closed (the guard is part of the signature)"], ["T:arr", "T:raw"]),
+    "detail::abstract_array_test<> : std::true_type (const utility::AbstractArray<U> *)": _c(["src_array_overload (unevaluated helper of is_abstract_array)"], ["T:arr"]),
+    "detail::abstract_array_test : std::false_type (...)": _c(["src_array_overload (unevaluated helper of is_abstract_array)"], ["T:raw"]),
+}
+
+
+def check_inventory(ctx, execs):
+    """AST inventory vs COVER vs what ran; everything that does not line up is reported by name (fail closed)"""
+    try:
+        inv = factgen.inventory(factgen.LAST_DOCS) if factgen.LAST_DOCS else []
+    except Exception as ex:
+        inv = []
+        ctx.broken.append("inventory extraction failed: %r" % (ex,))
+    if not inv:
+        ctx.broken.append("inventory of rkcommon::networking is empty (AST not available)")
+    report = {}
+    for key in inv:
+        ent = COVER.get(key)
+        if ent is None:
+            ctx.broken.append("inventory: DataStreaming declares `%s`, which is not in props/C15/check.py COVER (new overload / member?)" % key)
+            report[key] = {"status": "NOT IN TABLE"}
+        elif "out" in ent:
+            report[key] = {"status": "out of scope", "reason": ent["out"]}
+        else:
+            n = sum(execs.get(o, 0) for o in ent["ops"])
+            report[key] = {"status": "covered", "by": ent["by"], "ops": ent["ops"], "executions": n}
+            if n == 0:
+                ctx.broken.append("inventory: no case of this run executed `%s` (operations %s)" % (key, ent["ops"]))
+    for key in COVER:
+        if key not in inv and inv:
+            ctx.broken.append("inventory: COVER entry `%s` matches no declaration any more (removed or signature changed)" % key)
+            report[key] = {"status": "VANISHED"}
+    ctx.cov["inventory"] = report
+    ctx.cov["inventory_summary"] = {"declarations": len(inv), "covered": sum(1 for v in report.values() if v["status"] == "covered"),
+                                    "out_of_scope": sum(1 for v in report.values() if v["status"] == "out of scope")}
+
+
 # ------------------------------------------------------------------------------ check
 def fields_T(line):
     return dict(p.split("=", 1) for p in line.replace(" dec=", "\x00dec=").replace(" end=", "\x00end=").split("\x00")[0].split(" ")
@@ -525,7 +651,7 @@ def differing(kind, a, b):
     """name of what differs between two observation lines (for grouping the reports)"""
     if kind == "T":
         fa, fb = split_T(a), split_T(b)
-        ks = [k for k in ("raw", "enc", "calc", "dec", "end", "cur", "trunc", "fix", "re", "st") if fa.get(k) != fb.get(k)]
+        ks = [k for k in ("raw", "enc", "calc", "dec", "end", "cur", "trunc", "fix", "re", "st", "cp") if fa.get(k) != fb.get(k)]
         return "+".join(ks) or "?"
     if kind in ("R", "F", "L", "H"):
         sa, sb = a.split(" ; "), b.split(" ; ")
@@ -696,6 +822,13 @@ def run(ctx):
         else:
             if len(t) >= 3:
                 ctx.nontriv(c)
+    execs = dict(hist["ops"])
+    for c in cases:
+        execs[c[0]] = execs.get(c[0], 0) + 1
+    for ty, n in hist["types"].items():
+        kind = ("T:arr" if ty.startswith("a:") else "T:vec" if ty.startswith("v:") else "T:str" if ty == "s" else "T:cs" if ty == "cs" else "T:raw")
+        execs[kind] = execs.get(kind, 0) + n
+    check_inventory(ctx, execs)
     ctx.cov["case_mix"] = mix
     ctx.cov["histograms"] = hist
     ctx.cov["truncation_points_read_back"] = trunc_points
